@@ -15,6 +15,11 @@ var recvTracer *ws.Tracer
 
 const maxEventsPerConn = 4000
 
+// maxEventsTotal bounds the whole sample: once reached no further connection is traced (the campaign itself goes on).
+const maxEventsTotal = 1500000
+
+var recvTotal int64
+
 var recvCount, recvOverflow sync.Map
 
 func setupRecvTrace(path string, every int) {
@@ -31,10 +36,16 @@ func setupRecvTrace(path string, every int) {
 		if conn%k != 0 {
 			return false
 		}
+		if atomic.LoadInt64(&recvTotal) > maxEventsTotal {
+			if _, known := recvCount.Load(conn); !known {
+				return false
+			}
+		}
 		_, over := recvOverflow.Load(conn)
 		return !over
 	}
 	recvTracer = &ws.Tracer{Keep: func(e websocket.VerifEvent) bool {
+		atomic.AddInt64(&recvTotal, 1)
 		v, _ := recvCount.LoadOrStore(e.Conn, new(int64))
 		if atomic.AddInt64(v.(*int64), 1) > maxEventsPerConn {
 			recvOverflow.Store(e.Conn, true)
